@@ -932,7 +932,10 @@ fn check_if_else(
 ) -> expr::IfElse<Arc<Type>> {
   let condition = Box::new(match expression.condition.as_ref() {
     expr::IfElseCondition::Expression(expr) => {
-      expr::IfElseCondition::Expression(type_check_expression(cx, expr, type_hint::MISSING))
+      let checked_condition = type_check_expression(cx, expr, type_hint::MISSING);
+      let bool_type = Type::Primitive(Reason::new(expr.loc(), None), PrimitiveTypeKind::Bool);
+      assignability_check(cx, expr.loc(), checked_condition.type_(), &bool_type);
+      expr::IfElseCondition::Expression(checked_condition)
     }
     expr::IfElseCondition::Guard(p, expr) => {
       let expr = type_check_expression(cx, expr, type_hint::MISSING);
